@@ -30,11 +30,14 @@ func specServiceName(s string) bool {
 	return s == "nchf-convergedcharging" || s == "nchf-offlineonlycharging" || s == "nchf-spendinglimitcontrol"
 }
 
-// Config.Validate runs govalidator.ValidateStruct (reflection over the struct tags, outside the
-// verified subset). Assumed: when it reports no error, the presence requirements of the tags hold.
+// Config.Validate: the hand-coded rules of (*Configuration).validate, then govalidator.ValidateStruct
+// (reflection over the struct tags, an opaque dependency assumed to enforce the presence requirements of
+// the tags when it reports no error). Checked against the code: a configuration is only accepted after
+// both have run.
 //@ func (*Config).Validate [C20]
-//@   trusted
+//@   requires c != nil && govalidator.TagMap != nil
 //@   ensures result1 == nil ==> SpecValidated(c)
+//@   modifies mapof(govalidator.TagMap)
 
 // Configuration.validate rejects a list with an unknown service name (checked against the code); the
 // rest is govalidator.
